@@ -412,6 +412,20 @@ theorem mem_expand (expr : Name) (org : Org) (es : Bool) (T : List (Org × Name)
     · simp [hl] at hx
       right; exact (mem_sortU x l).1 hx
 
+theorem tablesOf_filter (o : Org) (q : Org × Name → Bool) (T : List (Org × Name))
+    (h : ∀ p ∈ T, p.1 = o → q p = true) : tablesOf o (T.filter q) = tablesOf o T := by
+  induction T with
+  | nil => rfl
+  | cons p r ih =>
+    have ihr := ih (fun p hp => h p (by simp [hp]))
+    by_cases hq : q p = true
+    · simp only [tablesOf] at ihr ⊢
+      rw [List.filter_cons_of_pos hq, List.filterMap_cons, List.filterMap_cons, ihr]
+    · have hpo : ¬ p.1 = o := fun e => hq (h p (by simp) e)
+      simp only [tablesOf] at ihr ⊢
+      rw [List.filter_cons_of_neg hq, List.filterMap_cons, ihr]
+      simp [hpo]
+
 /-! ### the rotated-segment metadata -/
 
 theorem lookupT_putT (n t : Name) (v : List Seg) (b : List (Name × List Seg)) :
